@@ -19,9 +19,9 @@ func Walk(node Node, f func(Node) bool) {
 		return
 	}
 
-	// trailing is a comment which follows the node's other children;
-	// it is walked last, but still before f(nil).
-	var trailing *Comment
+	// trailing holds the comments which follow the node's other children;
+	// they are walked last, but still before f(nil).
+	var trailing []Comment
 
 	switch node := node.(type) {
 	case *File:
@@ -29,9 +29,9 @@ func Walk(node Node, f func(Node) bool) {
 		walkComments(node.Last, f)
 	case *Comment:
 	case *Stmt:
-		for _, c := range node.Comments {
+		for i, c := range node.Comments {
 			if !node.End().After(c.Pos()) {
-				trailing = &c
+				trailing = node.Comments[i:]
 				break
 			}
 			Walk(&c, f)
@@ -142,9 +142,9 @@ func Walk(node Node, f func(Node) bool) {
 		walkList(node.Items, f)
 		walkComments(node.Last, f)
 	case *CaseItem:
-		for _, c := range node.Comments {
+		for i, c := range node.Comments {
 			if c.Pos().After(node.Pos()) {
-				trailing = &c
+				trailing = node.Comments[i:]
 				break
 			}
 			Walk(&c, f)
@@ -161,9 +161,9 @@ func Walk(node Node, f func(Node) bool) {
 		walkList(node.Elems, f)
 		walkComments(node.Last, f)
 	case *ArrayElem:
-		for _, c := range node.Comments {
+		for i, c := range node.Comments {
 			if c.Pos().After(node.Pos()) {
-				trailing = &c
+				trailing = node.Comments[i:]
 				break
 			}
 			Walk(&c, f)
@@ -189,9 +189,7 @@ func Walk(node Node, f func(Node) bool) {
 		panic(fmt.Sprintf("syntax.Walk: unexpected node type %T", node))
 	}
 
-	if trailing != nil {
-		Walk(trailing, f)
-	}
+	walkComments(trailing, f)
 	f(nil)
 }
 
